@@ -95,17 +95,33 @@ func init() {
 		ID:    "C12",
 		Title: "Reported crossings = crossings of the drawing",
 		Count: counts(10000, 120000),
-		Rule: "simple graphs (no self loops, parallel or antiparallel edges) from F1, F7 (66-110 layers), F8 (layers of 6-30 nodes), F9, F11 x {ns, lp} layering x size-aware positioners x polyline routing x " +
+		Rule: "simple graphs (no self loops, parallel or antiparallel edges) from F1, F7 (66-110 layers), F8 (layers of 6-30 nodes; every 200th case two adjacent layers of 65-70 nodes), F9, F11, unions with long edges (10 %; crossings between components are judged geometrically and must be 0) x {ns, lp} layering x size-aware positioners x polyline routing x " +
 			"NodeSpacing > 0, LayerSpacing > 0; a recording monitor receives the phase-3 event \"crossings\" of every component; oracle: sum of reported counts == number of segment pairs between adjacent " +
 			"bands with strictly opposite x-order at top and bottom, counted naively on the returned polylines (node centres and bends); " +
 			"non-trivial = reported count > 0 and (>= 66 bands | a band with >= 9 nodes | a long edge)",
 		MinNontrivial: counts(1500, 20000),
-		Required:      []string{"crossing_events", "deep_graphs_over_64_layers", "wide_layers", "long_edges", "crossings_counted"},
+		Required:      []string{"crossing_events", "deep_graphs_over_64_layers", "wide_layers", "layers_over_64_nodes", "multi_component_inputs", "long_edges", "crossings_counted"},
 		Gen: func(seed int64, tier string, idx int) *core.Case {
 			r := rng("C12", seed, tier, idx)
 			c := &core.Case{Prop: "C12", Tier: tier, Seed: seed, Index: idx}
 			var g gen.IG
 			switch k := r.Intn(20); {
+			case idx%200 == 3:
+				// two or three adjacent layers with more than 64 nodes each: positions beyond 63 in both layers
+				g = gen.Wide(r, 2, 65, 70, 0.05)
+				g.Family = "F8-wide-over-64"
+			case k == 15 || k == 16:
+				// several components, some with long edges: the drawing must not gain crossings between components
+				var parts []gen.IG
+				for n := 2 + r.Intn(2); n > 0; n-- {
+					if r.Intn(3) == 0 {
+						parts = append(parts, gen.DAG(r, 3+r.Intn(6), 0.4))
+					} else {
+						parts = append(parts, gen.Skip(r, 3+r.Intn(4), 1, 3, 0.4, 2+r.Intn(5), 2+r.Intn(3)))
+					}
+				}
+				g, _ = gen.Union(r, parts)
+				g.Family = "F5-union(long-edges)"
 			case k == 0:
 				g = gen.Deep(r, 66+r.Intn(45), 2+r.Intn(2), 0.2)
 			case k <= 2:
@@ -151,7 +167,7 @@ func init() {
 			if res.Panic != nil {
 				return noReturn(res.Panic)
 			}
-			reported, events := 0, 0
+			reported, events, interComp := 0, 0, 0
 			for _, e := range rec.Events {
 				if e.Phase == 3 && e.Key == "crossings" {
 					n, ok := e.Val.(int)
@@ -171,6 +187,35 @@ func init() {
 				return *sk
 			}
 			counted, w := countCrossingsByOrder(segs)
+			// crossings between edges of different components are crossings of the drawing too; components need not share
+			// a y grid, so these pairs are judged geometrically (proper intersection of the returned polyline segments)
+			if v.ncomp > 1 {
+				type gseg struct {
+					a, b [2]float64
+					comp int
+					edge int
+				}
+				var gs []gseg
+				match := matchEdges(c.Edges, v.l)
+				for i, e := range c.Edges {
+					if isSelfLoop(e) || match[i] < 0 {
+						continue
+					}
+					p := v.l.Edges[match[i]].Points
+					for k := 1; k < len(p); k++ {
+						gs = append(gs, gseg{p[k-1], p[k], v.comp[e[0]], i})
+					}
+				}
+				for i := 0; i < len(gs); i++ {
+					for j := i + 1; j < len(gs); j++ {
+						if gs[i].comp != gs[j].comp && properIntersect(gs[i].a, gs[i].b, gs[j].a, gs[j].b) {
+							counted++
+							w = [2]int{gs[i].edge, gs[j].edge}
+							interComp++
+						}
+					}
+				}
+			}
 			bands, widest, long := 0, 0, 0
 			perBand := map[[2]int]int{}
 			bi := v.bandIndex()
@@ -190,6 +235,12 @@ func init() {
 				if bands > 64 {
 					shape = "over-64-layers"
 				}
+				if widest > 64 {
+					shape = "over-64-wide"
+				}
+				if interComp > 0 {
+					shape = "between-components"
+				}
 				wit := ""
 				if w[0] >= 0 {
 					wit = fmt.Sprintf("; e.g. %v x %v", c.Edges[w[0]], c.Edges[w[1]])
@@ -207,6 +258,12 @@ func init() {
 			}
 			if widest >= 9 {
 				r.stat("wide_layers", 1)
+			}
+			if widest > 64 {
+				r.stat("layers_over_64_nodes", 1)
+			}
+			if v.ncomp > 1 {
+				r.stat("multi_component_inputs", 1)
 			}
 			if wantSample {
 				r.Sample = layoutSample(c, res.Layout, map[string]any{"reported_crossings": reported, "counted_crossings": counted})
